@@ -34,13 +34,17 @@ def _worker(case):
             ocf = PreOCF.init_system_z(bb) if case["kind"] == "system-z" else PreOCF.init_random_min_c_rep(bb)
             ocf.compute_all_ranks()
             out["ranks"] = dict(ocf.ranks)
+            # a second object over the same base that is NOT ranked up front: the first `lazy_prefix` operations run on it
+            lazy = PreOCF.init_system_z(bb) if case["kind"] == "system-z" else PreOCF.init_random_min_c_rep(bb)
     except Exception as e:  # noqa
         out["error"] = "EXC:%s:%s" % (type(e).__name__, str(e)[:100])
         return out
     common.NARY["on"] = bool(case.get("nary"))      # chains of one connective handed over as ONE n-ary node
-    for op in case["ops"]:
+    full = ocf
+    for opi, op in enumerate(case["ops"]):
         try:
             k = op[0]
+            ocf = lazy if (opi < case.get("lazy_prefix", 0) and case["kind"] != "custom") else full
             if k == "F":
                 r = ocf.formula_rank(common.to_pysmt(op[1], sig))
             elif k == "A":
@@ -80,7 +84,7 @@ def run(tier, seed, broken_proof=False):
     for i in range(count):
         n = rng.randrange(1, 6 if tier == "quick" else 7)
         sig = common.ATOM_NAMES[:n]
-        kind = "custom" if rng.random() < 0.8 else rng.choice(["system-z", "c-rep"])
+        kind = "custom" if rng.random() < 0.7 else rng.choice(["system-z", "system-z", "c-rep"])
         c = {"id": "r%d" % i, "n": n, "sig": sig, "kind": kind}
         if kind == "custom":
             hi = rng.choice([1, 2, 3, 6, 9, 300])
@@ -101,6 +105,20 @@ def run(tier, seed, broken_proof=False):
                 worlds = [bits(w) for w in itertools.product([False, True], repeat=n)]
                 c["ranks"] = [(w, rng.randrange(0, 4)) for w in worlds]
         opsl = []
+        if kind != "custom" and n >= 2:
+            # lazily ranked objects in a PARTLY computed state: rank a world or two (a cube fixes every atom but at most one),
+            # then ask acceptance verdicts and formula ranks; what is answered must not depend on which ranks exist already
+            for _ in range(2):
+                free = rng.randrange(n) if rng.random() < 0.5 else None
+                lits = [common.V(j) if rng.random() < 0.5 else common.Not(common.V(j)) for j in range(n) if j != free]
+                cube = lits[0]
+                for l in lits[1:]:
+                    cube = ("&", cube, l)
+                opsl.append(("F", cube))
+                for _ in range(3):
+                    opsl.append(("A", gen_lit(rng, n), gen_lit(rng, n)))
+                opsl.append(("A", gen_formula(rng, n, 1, 0.0), gen_formula(rng, n, 1, 0.0)))
+            c["lazy_prefix"] = len(opsl)
         for _ in range(3):
             opsl.append(("F", gen_formula(rng, n, 2, 0.08)))
         for _ in range(3):
